@@ -604,7 +604,7 @@ func (g *cssGen) declaration() string {
 		for i := 0; i < layers; i++ {
 			var parts []string
 			if r.Chance(1, 2) {
-				parts = append(parts, r.Pick([]string{g.url(), "none", "linear-gradient(red, blue)", "linear-gradient(to right, #FF0000 0%, rgba(0,0,0,0) 100%)"}))
+				parts = append(parts, r.Pick([]string{g.url(), "none", "linear-gradient(red, blue)", "linear-gradient(to right, #FF0000 0%, rgba(0,0,0,0) 100%)", "linear-gradient(0deg, #000000, #ffffff)", "linear-gradient(0turn, rgb(10,20,30), rgb(200,100,50) 50%, hsl(120,50%,50%))", "repeating-linear-gradient(90deg, red 0px, blue 10.0px)", "conic-gradient(from 90deg, red, blue 50%)", "linear-gradient(calc(0deg + 1turn), red, blue)", "radial-gradient(circle at 0 0, rgb(1,2,3), rgb(4,5,6))"}))
 			}
 			if r.Chance(1, 2) {
 				p := g.position()
@@ -759,7 +759,7 @@ func (g *cssGen) declaration() string {
 		}
 	case 22:
 		name = r.Pick([]string{"transform", "filter", "rotate"})
-		val = r.Pick([]string{"rotate(0deg)", "rotate(0)", "rotate(90deg)", "translate(0px, 0px)", "translate(0,0)", "translateX(0%)", "scale(1.0)", "scale(1, 1)", "rotate(.5turn)", "skew(0deg,0deg)", "matrix(1,0,0,1,0,0)", "translate3d(0,0,0)", "rotate(0rad)", "rotateX(0turn)"})
+		val = r.Pick([]string{"rotate(0deg)", "rotate(0)", "rotate(90deg)", "translate(0px, 0px)", "translate(0,0)", "translateX(0%)", "scale(1.0)", "scale(1, 1)", "rotate(.5turn)", "skew(0deg,0deg)", "matrix(1,0,0,1,0,0)", "translate3d(0,0,0)", "rotate(0rad)", "rotateX(0turn)", "rotate(calc(0deg + 90deg))", "rotate(var(--a, 0deg))", "rotate(calc(0deg))"})
 		if name == "filter" {
 			val = r.Pick([]string{"blur(0px)", "hue-rotate(0deg)", "drop-shadow(0 0 0 #F00)", "brightness(1.0)", "none", "hue-rotate(90deg) blur(2.0px)"})
 		}
